@@ -70,6 +70,7 @@ Fo(d) ==
                          CatS([i \in 1..Len(d.cases) |-> "| " \o d.cases[i].n \o "@" \o (IF d.cases[i].has THEN " of " \o FoT(d.cases[i].t) ELSE "") \o "\n"])
     [] d.k = "func"   -> "let f@ " \o (IF d.params = <<>> THEN "()" ELSE JoinStr([i \in 1..Len(d.params) |-> "(a" \o ToString(i) \o ":" \o FoT(d.params[i]) \o ")"], " "))
                          \o " =\n  " \o (IF d.res = Unit THEN "()" ELSE IF d.res = B("int") THEN "0" ELSE "\"s\"") \o "\n"
+    [] d.k = "namedfunc" -> "let " \o d.name \o " (a1:int) =\n  0\n"          \* a top-level function with a given name (no @)
     [] d.k = "var"    -> "let v@ = " \o (IF d.t = B("int") THEN "5" ELSE IF d.t = B("string") THEN "\"s\"" ELSE "true") \o "\n"
     [] d.k = "lamvar" -> "let v@ = fun " \o JoinStr([i \in 1..Len(d.params) |-> "(a" \o ToString(i) \o ":" \o FoT(d.params[i]) \o ")"], " ")
                          \o " -> " \o (IF d.res = B("int") THEN "0" ELSE "\"s\"") \o "\n"
@@ -111,6 +112,7 @@ Surface(d) ==
          IN FlattenS([i \in 1..Len(d.cases) |-> one(d.cases[i])])
     [] d.k = "func"   ->
          <<"var _ func(" \o JoinStr([i \in 1..Len(d.params) |-> GoT(d.params[i])], ",") \o ")" \o (IF d.res = Unit THEN "" ELSE " " \o GoT(d.res)) \o " = f@">>
+    [] d.k = "namedfunc" -> <<"var _ func(int) int = " \o d.name>>                  \* the package func has the source name
     [] d.k = "var"    -> <<"var _ *" \o GoT(d.t) \o " = &v@">>
     \* a top-level let bound to a lambda is a package VARIABLE of function type (addressable, assignable), not a func declaration
     [] d.k = "lamvar" -> <<"var _ *func(" \o JoinStr([i \in 1..Len(d.params) |-> GoT(d.params[i])], ",") \o ") " \o GoT(d.res) \o " = &v@">>
